@@ -106,6 +106,8 @@ type subState struct {
 	credited [4]int64
 	usage    [4]int64 // online volume reported in completed update/release requests
 	cost     [4]int64
+	notify   string // path of the notification URI registered by the latest successful create
+	creates  int
 }
 
 type World struct {
@@ -290,14 +292,17 @@ func (w *World) Exec(op Op) *Result {
 			nf.NFPLMNID = &models.PlmnId{Mcc: "208", Mnc: "93"}
 		}
 		units, _, _ := w.buildUnits(op, nil, false)
+		st.creates++
+		npath := fmt.Sprintf("/notify/%s/%d", st.supi, st.creates) // every consumer (session) registers its own URI
 		req := models.ChfConvergedChargingChargingDataRequest{SubscriberIdentifier: st.supi, ChargingId: se.chargingID, NfConsumerIdentification: nf,
-			InvocationTimeStamp: &now, InvocationSequenceNumber: isn, NotifyUri: env.Sink.URL + "/notify/" + st.supi, MultipleUnitUsage: units}
+			InvocationTimeStamp: &now, InvocationSequenceNumber: isn, NotifyUri: env.Sink.URL + npath, MultipleUnitUsage: units}
 		body, _ := json.Marshal(req)
 		se.t0 = time.Now()
 		code, rb, hd := doHTTP("POST", prefix+"/chargingdata", body, nil)
 		se.t1 = time.Now()
 		res.Status, res.Body, res.Location, res.Req, res.Path = code, rb, hd.Get("Location"), &req, prefix+"/chargingdata"
 		if code == http.StatusCreated {
+			st.notify = npath
 			se.ref, se.live, se.createReq = refOf(res.Location), true, req
 			st.sess = append(st.sess, se)
 			res.Sess = se
